@@ -430,7 +430,7 @@ inductive Res (α : Type) where
   | ok (a : α)
   | err          -- Bind returned an error
   | panic        -- a Go panic
-  deriving Inhabited
+  deriving Inhabited, DecidableEq
 
 def Res.ofOption {α} : Option α → Res α
   | some a => .ok a
@@ -651,6 +651,45 @@ def bindElts (ρ : Env) (n : Nat) : List V → List Pat → SetStep
 end
 
 end Impl
+
+/-! ### supported patterns: what today's (repaired) code handles as the specification demands -/
+
+/-- an element of a set pattern of `n` elements that SetPattern.Bind handles -/
+def eltOK (n : Nat) : Pat → Bool
+  | .rest _ | .name _ | .lit _ => true
+  | .exprs [_] => true
+  | .exprs _ => false
+  | _ => n == 1
+
+mutual
+def supported (ρ : Env) : Pat → Bool
+  | .lit _ => true
+  | .name _ => true
+  | .rest _ => true
+  -- every parenthesised expression can be evaluated
+  | .exprs es => es.all (fun e => (e.eval ρ).isSome)
+  -- at most one optional part (`?:` or `...`)
+  | .arr items => (scanMarks (itemMarks items) 0).isSome && supportedItems ρ items
+  -- at most one `...`, distinct attribute names
+  | .tup attrs => decide ((restsAttrs attrs).length ≤ 1) && decide ((attrNames attrs).Nodup) && supportedAttrs ρ attrs
+  -- at most one `...`, no `?:` entries, distinct keys
+  | .dict ents => decide ((restsEnts ents).length ≤ 1) && ents.all (fun e => e.2.2.isNone) &&
+      decide ((entKeys ents).Nodup) && supportedEnts ρ ents
+  -- at most one name or `...`; nested patterns only as the single element
+  | .set elts => (scanMarks (eltMarks elts) 0).isSome && elts.all (eltOK elts.length) && supportedElts ρ elts
+def supportedItems (ρ : Env) : List (Pat × Option Lit) → Bool
+  | [] => true
+  | (p, _) :: r => supported ρ p && supportedItems ρ r
+def supportedAttrs (ρ : Env) : List (String × Pat × Option Lit) → Bool
+  | [] => true
+  | (_, p, _) :: r => supported ρ p && supportedAttrs ρ r
+def supportedEnts (ρ : Env) : List (Lit × Pat × Option Lit) → Bool
+  | [] => true
+  | (_, p, _) :: r => supported ρ p && supportedEnts ρ r
+def supportedElts (ρ : Env) : List Pat → Bool
+  | [] => true
+  | p :: r => supported ρ p && supportedElts ρ r
+end
 
 /-! ## let / function call / cond -/
 
